@@ -92,8 +92,8 @@ func ParseFile(inputPath string) (areas []textArea, err error) {
 
 				currentTag := field.Tag.Value
 				area := textArea{
-					Start:      int(field.Pos()),
-					End:        int(field.End()),
+					Start:      int(field.Tag.Pos()), // 只替换该字段自己的 tag 字面量
+					End:        int(field.Tag.End()),
 					CurrentTag: currentTag[1 : len(currentTag)-1], // 去掉 ``
 					InjectTag:  tag,
 				}
